@@ -480,6 +480,12 @@ double cmb_random_std_gamma(const double shape)
 {
     cmb_assert_release(shape > 0.0);
 
+    if (shape < 1.0) {
+        /* The method below needs shape >= 1; boost from shape + 1 (op. cit.) */
+        const double g = cmb_random_std_gamma(shape + 1.0);
+        return g * pow(cmb_random(), 1.0 / shape);
+    }
+
     static CMB_THREAD_LOCAL double a_prev = 0.0;
     static CMB_THREAD_LOCAL double c = 0.0;
     static CMB_THREAD_LOCAL double d = 0.0;
